@@ -60,3 +60,29 @@ Example C04_nonvacuous :
   let c := {| n_op := OpGT; n_val := MaxInt64; n_vals := []; n_min := 0; n_max := 0 |} in
   brackets x MaxInt64 MaxInt64 /\ val_sat x c = true /\ eval_minmax (5, MaxInt64) c = true.
 Proof. cbv zeta. split; [|split; vm_compute; reflexivity]. unfold brackets, in64, MaxInt64, MinInt64. lia. Qed.
+
+(* ---- kernel ties (DESIGN.md 10.7).  The Go functions the theorems above are about are translated
+   from the current source on every run (Generated/Kernels.v); each tie states that the translated
+   function equals the model definition used above, on the whole range of the Go types
+   (Generated/KernelTie.v; `True` for a kernel the translator reports as not translated). ---- *)
+From BS Require Import Generated.KernelTie Proofs.KTie_clamp_u Proofs.KTie_update_mm Proofs.KTie_eval_minmax Proofs.KTie_eval_numeric Proofs.KTie_eval_string.
+
+Theorem C04_kernel_tie_clamp_u : tie_clamp_u.
+Proof. exact k_clamp_u_tie. Qed.
+Print Assumptions C04_kernel_tie_clamp_u.
+
+Theorem C04_kernel_tie_update_mm : tie_update_mm.
+Proof. exact k_update_mm_tie. Qed.
+Print Assumptions C04_kernel_tie_update_mm.
+
+Theorem C04_kernel_tie_eval_minmax : tie_eval_minmax.
+Proof. exact k_eval_minmax_tie. Qed.
+Print Assumptions C04_kernel_tie_eval_minmax.
+
+Theorem C04_kernel_tie_eval_numeric : tie_eval_numeric.
+Proof. exact k_eval_numeric_tie. Qed.
+Print Assumptions C04_kernel_tie_eval_numeric.
+
+Theorem C04_kernel_tie_eval_string : tie_eval_string.
+Proof. exact k_eval_string_tie. Qed.
+Print Assumptions C04_kernel_tie_eval_string.
